@@ -122,6 +122,8 @@ type Program struct {
 	Explicit map[string]bool `json:"explicit,omitempty"`
 	// DefaultM replaces the declared default of the optional integer input field m (YAML text).
 	DefaultM string `json:"default_m,omitempty"`
+	// DanglingInputRef makes the type of the input field `nested` refer to an object that is not declared.
+	DanglingInputRef bool `json:"dangling_input_ref,omitempty"`
 }
 
 // Src is the plugin source of a step.
@@ -411,10 +413,15 @@ func (p *Program) YAML() string {
 	b.WriteString("version: v0.2.0\n")
 	if p.Item {
 		b.WriteString(itemInputSchema)
-	} else if p.DefaultM != "" {
-		b.WriteString(strings.Replace(rootInputSchema, `default: "7"`, "default: "+p.DefaultM, 1))
 	} else {
-		b.WriteString(rootInputSchema)
+		text := rootInputSchema
+		if p.DefaultM != "" {
+			text = strings.Replace(text, `default: "7"`, "default: "+p.DefaultM, 1)
+		}
+		if p.DanglingInputRef {
+			text = strings.Replace(text, "id: Nested\n", "id: NoSuchObject\n", 1)
+		}
+		b.WriteString(text)
 	}
 	b.WriteString("steps:\n")
 	for _, s := range p.Steps {
